@@ -112,7 +112,7 @@ def check_schema(file_path: str, state_manager: ComplianceToolStateManager) -> N
         # open given file
         reader = aasx.AASXReader(file_path)
         state_manager.set_step_status_from_log()
-    except ValueError as error:
+    except (FileNotFoundError, ValueError) as error:
         logger.error(error)
         state_manager.set_step_status_from_log()
         state_manager.add_step('Read file')
@@ -295,7 +295,7 @@ def check_aasx_files_equivalence(file_path_1: str, file_path_2: str, state_manag
     try:
         state_manager.add_step('Check if data in files are equal')
         checker.check_object_store(obj_store_1, obj_store_2)
-    except (KeyError, AssertionError) as error:
+    except (KeyError, AssertionError, NotImplementedError) as error:
         state_manager.set_step_status(Status.FAILED)
         logger.error(error)
         state_manager.add_step('Check if core properties are equal')
